@@ -554,8 +554,9 @@ class Packet(object):
         if length > len(datagram):
             raise PacketError("length error")
 
-        if key and hdr.pkt_type not in (PacketType.CLIENT_HELLO, PacketType.SERVER_HELLO):
-            # packet is encrypted, decrypt using the given key
+        if key:
+            # once a key has been agreed on every packet is encrypted,
+            # decrypt using the given key
             length += PacketHeader.TAG_SIZE
             iv = datagram[:PacketHeader.IV_SIZE]
             aad = datagram[:PacketHeader.SIZE]
